@@ -152,7 +152,72 @@ func c11Extra(c *Check) {
 			})
 		}
 	}
-	if nAccr != 1 || nWake != 1 {
+	// ---- R9 the wake-up delay is rounded up
+	floatWake := false
+	{
+		const r9 = "C11.R9 the delay announced by TimeUntilSend is the missing bytes divided by the bandwidth rounded UP (integer quotient plus a remainder correction, or a ceiling): at the announced time the budget covers a whole datagram, otherwise the send loop wakes up one byte short and spins"
+		wakeFns := []*ssa.Function{wake}
+		for _, ci := range callsIn(wake, func(ci ssa.CallInstruction) bool {
+			g := staticCallee(ci)
+			return g != nil && fnPkg(g) != nil && fnPkg(g).Pkg.Path() == pCommon && len(g.Blocks) > 0
+		}) {
+			wakeFns = append(wakeFns, staticCallee(ci))
+		}
+		trunc, intQuo, roundsUp := "", false, false
+		for _, wf := range wakeFns {
+			allInstrs(wf, func(in ssa.Instruction) {
+				switch x := in.(type) {
+				case *ssa.Convert:
+					// float -> integer conversion truncates toward zero
+					if sb, ok := x.X.Type().Underlying().(*types.Basic); ok && sb.Info()&types.IsFloat != 0 && isIntType(x.Type()) {
+						if call, ok := resolve(x.X).(*ssa.Call); ok && calleeIs(call, "math", "Ceil") {
+							roundsUp = true
+							return
+						}
+						trunc = p.InstrPos(x)
+					}
+				case *ssa.BinOp:
+					if !isIntType(x.Type()) {
+						return
+					}
+					if _, isC := constInt(x.Y); isC {
+						return
+					}
+					switch x.Op {
+					case token.QUO:
+						intQuo = true
+						// (a + b - 1) / b
+						for d := range deps(x.X, depOpts{}) {
+							if sb, ok := d.(*ssa.BinOp); ok && sb.Op == token.SUB && isConstInt(sb.Y, 1) && resolve(sb.X) == resolve(x.Y) {
+								roundsUp = true
+							}
+							if sb, ok := d.(*ssa.BinOp); ok && sb.Op == token.ADD && (resolve(sb.X) == resolve(x.Y) || resolve(sb.Y) == resolve(x.Y)) {
+								for d2 := range deps(x.X, depOpts{}) {
+									if k, ok := constInt(d2); ok && k == -1 || isConstInt(d2, 1) {
+										roundsUp = true
+									}
+								}
+							}
+						}
+					case token.REM:
+						roundsUp = true // quotient corrected by the remainder test
+					}
+				}
+			})
+		}
+		switch {
+		case trunc != "":
+			floatWake = true
+			c.Bad("C11.R9:wake-up-rounded-up", r9, trunc, "the wake-up delay is computed in floating point and converted with truncation: the announced time is the floor of bytes/bandwidth, the budget then is one byte short of a datagram")
+		case intQuo:
+			c.Req(roundsUp, "C11.R9:wake-up-rounded-up", r9, p.Pos(wake.Pos()), "the wake-up delay is the plain integer quotient bytes/bandwidth (rounded down): no remainder correction / ceiling was found")
+		case roundsUp:
+			c.OK("C11.R9:wake-up-rounded-up", r9, p.Pos(wake.Pos()))
+		}
+	}
+	if floatWake && nWake == 0 {
+		// decided (as a violation) by R9; R5's divisor comparison has nothing to look at
+	} else if nAccr != 1 || nWake != 1 {
 		c.Undecided("C11.R5:bandwidth-source", r5, p.Pos(budget.Pos()), fmt.Sprintf("expected one accrual multiplication in Budget and one wake-up division in TimeUntilSend, found %d and %d: pacer shape not recognised", nAccr, nWake))
 	} else {
 		// the budget field and the datagram size take part in both computations by design; compare rate sources only
